@@ -121,6 +121,10 @@ def mk_term(cr, cc, rs, re, sr, sc):
 def si_ok(t):
     if len(t.w) != ROWS:
         return False
+    for i in range(ROWS):
+        for j in range(i + 1, ROWS):
+            if t.w[i] is t.w[j]:
+                return False          # two rows are one list object: a later write would change both
     for row in t.w:
         if len(row) != COLS:
             return False
